@@ -30,7 +30,7 @@ def one(seed_dir):
 
 if __name__ == '__main__':
     seeds = sorted(glob.glob(os.path.join(HERE, 'seeded', 'C*-*')))
-    with ThreadPoolExecutor(8) as ex:
+    with ThreadPoolExecutor(14) as ex:
         out = dict(ex.map(one, seeds))
     json.dump(out, open(os.path.join(HERE, 'seeded', 'MATRIX.json'), 'w'), indent=1)
     missed = []
